@@ -213,7 +213,9 @@ class DESolver:
             X0 = self._unflattenX(X0_flat, self._X0)
             
             #On the final step, land exactly on tf so that round-off in currTime + (tf - currTime) cannot overshoot or fall short
-            currTime = tf if dt >= tf - currTime else currTime + dt
+            #A step that covers the remaining time up to round-off is the final step: otherwise one more step of ~1e-17 follows,
+            #and step size rules that scale with the previous step size collapse at the start of the next solve call
+            currTime = tf if dt >= (tf - currTime) * (1 - 1e-10) else currTime + dt
             X0, stop = self.postProcess(currTime, X0)
             i += 1
 
